@@ -190,7 +190,7 @@ public:
     }
 
     inplace_function(inplace_function&& other) noexcept
-        : _vtable{exchange(other._vtable, etl::addressof(detail::empty_vtable<R, Args...>))}
+        : _vtable{etl::exchange(other._vtable, etl::addressof(detail::empty_vtable<R, Args...>))}
     {
         _vtable->relocate_ptr(etl::addressof(_storage), etl::addressof(other._storage));
     }
@@ -207,7 +207,7 @@ public:
     auto operator=(inplace_function other) noexcept -> inplace_function&
     {
         _vtable->destructor_ptr(etl::addressof(_storage));
-        _vtable = exchange(other._vtable, etl::addressof(detail::empty_vtable<R, Args...>));
+        _vtable = etl::exchange(other._vtable, etl::addressof(detail::empty_vtable<R, Args...>));
         _vtable->relocate_ptr(etl::addressof(_storage), etl::addressof(other._storage));
         return *this;
     }
